@@ -47,11 +47,33 @@ def one_case(V, E, form=None):
     return G, r, before == after
 
 
+def run_large(R):
+    """thousands of nodes (expected partition known in closed form; the model's unary numbers are not run at this size): a chain
+    0 -> ... -> n with a back edge n -> n/2 and a second DFS tree hanging into the cycle - the explicit-stack algorithm may not
+    depend on path lengths"""
+    from pyModelChecking.graph import DiGraph, compute_SCCs
+    for n in (5000, 1800):
+        h = n // 2
+        E = [(i, i + 1) for i in range(n)] + [(n, h)] + [(n + 1, n + 2), (n + 2, h + 1), (n + 2, n + 1)]
+        for V in ([], list(range(n + 2, -1, -1))):
+            R.evaluations += 1
+            G = DiGraph(V=V, E=E)
+            r = call(lambda: [sorted(c) for c in compute_SCCs(G)])
+            want = sorted([[i] for i in range(h)] + [list(range(h, n + 1))] + [[n + 1, n + 2]])
+            if r[0] != 'ok' or sorted(r[1]) != want:
+                R.violation('compute_SCCs on a graph with %d nodes %s' % (n + 3, ('raised ' + str(r[1])) if r[0] != 'ok' else 'is not the exact partition'),
+                            {'stream': 'large', 'n': n, 'insertion_order': 'edges' if not V else 'reversed nodes',
+                             'impl': r if r[0] != 'ok' else ['ok', '%d components, sizes %s' % (len(r[1]), sorted(set(map(len, r[1]))))]})
+            else:
+                R.nontriv(('large', n, bool(V)))
+
+
 def run(R):
     R.rule = ('digraphs over nodes 0..n-1 given as (node insertion order, edge list); exhaustive for n<=3 '
               '(+ every 7th 4-node graph in quick, all 65536 in thorough) under 3 insertion orders, random n<=12; '
               'non-trivial = at least one component with >= 2 nodes and at least 2 components; distinct by (order, edge set)')
     rng = R.rng
+    run_large(R)
     cases = []
     for n in range(0, 4):
         for E in all_digraphs(n):
@@ -118,6 +140,11 @@ def _hist(it):
 
 def replay(R, data):
     d = data['data']
+    if d.get('stream') == 'large':
+        n0 = len(R.violations)
+        run_large(R)
+        print('large graphs re-run: %d violation(s)' % (len(R.violations) - n0))
+        return
     G, r, unchanged = one_case(d['V'], [tuple(e) for e in d['E']], form=d.get('argument_form', 0))
     o = model_batch([['scc', graph_sx(G)]])[0]
     print('impl :', r)
